@@ -309,18 +309,16 @@ impl Scenario for C10 {
 
     fn execute(&self, spec: &Spec, st: &mut Stats) -> RunEnd {
         st.evals += 1;
-        let r = match spec.variant.as_str() {
-            "clone" | "skew" => self.run_pair(spec, st),
-            "two_seeds" => self.run_two_seeds(spec, st),
-            "bitflip" => self.run_bitflip(spec, st),
-            "core" => self.run_core(spec, st),
-            "isaac_array" => self.run_array(spec, st),
-            _ => Ok(()),
-        };
-        match r {
-            Ok(()) => RunEnd::Ok,
-            Err(E::End(e)) => e,
+        let _ = crate::gens::take_placement_disagreement();
+        let r = self.execute_inner(spec, st);
+        if let Some(d) = crate::gens::take_placement_disagreement() {
+            // `==` gave different verdicts for the same two values at different addresses
+            let name = spec.core.map(|c| c.name().to_string()).or(spec.kind.map(|k| k.name().to_string())).unwrap_or_default();
+            if !matches!(r, RunEnd::Violation(_)) {
+                return viol("C10/eq_depends_on_placement", format!("{}:eq", name), format!("{}: {}", name, d));
+            }
         }
+        r
     }
 
     fn rule(&self) -> String {
@@ -704,5 +702,22 @@ impl C10 {
             return Err(E::End(viol("C10/array_differs_but_equal", format!("{}:eq", name), format!("{}: after toggling elements {} and {}: == says {}", name, i, j, r.2))));
         }
         Ok(())
+    }
+}
+
+impl C10 {
+    fn execute_inner(&self, spec: &Spec, st: &mut Stats) -> RunEnd {
+        let r = match spec.variant.as_str() {
+            "clone" | "skew" => self.run_pair(spec, st),
+            "two_seeds" => self.run_two_seeds(spec, st),
+            "bitflip" => self.run_bitflip(spec, st),
+            "core" => self.run_core(spec, st),
+            "isaac_array" => self.run_array(spec, st),
+            _ => Ok(()),
+        };
+        match r {
+            Ok(()) => RunEnd::Ok,
+            Err(E::End(e)) => e,
+        }
     }
 }
